@@ -83,7 +83,7 @@ def main():
         elif a == "--prop":
             prop = args[i + 1]
             i += 1
-        elif not a.startswith("--"):
+        elif not a.startswith("-"):
             files.append(a)
         i += 1
     if not files:
